@@ -129,6 +129,10 @@ class _ExprNorm(ast.NodeTransformer):
                 and isinstance(node.args[0], ast.Constant) and isinstance(node.args[0].value, str) and node.args[0].value.isidentifier():
             return ast.copy_location(ast.Lambda(args=ast.arguments(posonlyargs=[], args=[ast.arg(arg="_k")], kwonlyargs=[], kw_defaults=[], defaults=[]),
                                                 body=ast.Attribute(value=ast.Name(id="_k", ctx=ast.Load()), attr=node.args[0].value, ctx=ast.Load())), node)
+        # keyword.iskeyword(x) -> x in keyword.kwlist   (iskeyword is frozenset(kwlist).__contains__)
+        if ast.unparse(node.func) in ("keyword.iskeyword", "iskeyword") and len(node.args) == 1 and not node.keywords:
+            return ast.copy_location(ast.Compare(left=node.args[0], ops=[ast.In()],
+                                                 comparators=[ast.Attribute(value=ast.Name(id="keyword", ctx=ast.Load()), attr="kwlist", ctx=ast.Load())]), node)
         # getattr(x, 'name') -> x.name
         if isinstance(node.func, ast.Name) and node.func.id == "getattr" and len(node.args) == 2 and not node.keywords \
                 and isinstance(node.args[1], ast.Constant) and isinstance(node.args[1].value, str) and node.args[1].value.isidentifier():
